@@ -12,6 +12,8 @@ a3 = []
 for p in props:
     f = os.path.join(D, "A3", p["id"] + ".md")
     body = rd(f).strip() or "*(check in construction; not claimed in MANIFEST.json yet — see A8)*"
+    for extra in sorted(x for x in os.listdir(os.path.join(D, "A3")) if re.match(re.escape(p["id"]) + r"[a-z]\.md$", x)):
+        body += "\n" + rd(os.path.join(D, "A3", extra)).strip()      # further layers of the same property (C02d.md, ...)
     a3.append("### %s — %s  [%s]\n\n%s\n" % (p["id"], p["title"], "claimed" if p["id"] in claimed else "not claimed", body))
 
 # A6 from KNOWN_FINDINGS
